@@ -52,10 +52,28 @@ def apply_variant(v, repo, dst):
     return True
 
 
+def load_twins():
+    """independently written behaviour-preserving refactorings (selftest/twins/*.diff, each passed the full test suite):
+    treated like 'preserve' variants, applied with patch(1); one that no longer applies is skipped"""
+    d = os.path.join(VERIF, 'selftest', 'twins')
+    out = []
+    if os.path.isdir(d):
+        for fn in sorted(os.listdir(d)):
+            if fn.endswith('.diff'):
+                out.append({'id': 'T-' + fn[:-5], 'kind': 'preserve', 'patch': os.path.join(d, fn)})
+    return out
+
+
+def apply_patch_variant(v, repo, dst):
+    shutil.copytree(os.path.join(repo, 'pysyncobj'), os.path.join(dst, 'pysyncobj'))
+    r = subprocess.run(['patch', '-p1', '-s', '--no-backup-if-mismatch', '-i', v['patch']], cwd=dst, capture_output=True, text=True)
+    return r.returncode == 0
+
+
 def run_variant(v, repo, props):
     tmp = tempfile.mkdtemp(prefix='sa_selftest_')
     try:
-        if not apply_variant(v, repo, tmp):
+        if not (apply_patch_variant(v, repo, tmp) if 'patch' in v else apply_variant(v, repo, tmp)):
             return v, 'skipped', {}, {}
         env = dict(os.environ, VERIF_EVIDENCE_DIR=os.path.join(tmp, 'ev'), VERIF_TIER='quick')
         fired = {}
@@ -73,7 +91,7 @@ def run_variant(v, repo, props):
 
 def run(repo, only_props=None, only_ids=None, jobs=16):
     from sa.props import PROPS
-    variants = load_variants()
+    variants = list(load_variants()) + load_twins()
     work = []
     for v in variants:
         if only_ids and v['id'] not in only_ids:
